@@ -889,6 +889,11 @@ def gen_C19(tier, seed):
     return out
 
 
+def durs10k_c11():
+    return [parts_of(v) for v in (0, 1, -1, 999, 1000, SEC, -SEC, NPD - 1, -NPD + 1, NPD, NPC, -NPC, 100 * NPC - 1, -100 * NPC + 1, 3 * 10**20, -3 * 10**20, 36525 * NPD + 7,
+                                  86399999999999, 3155759999999999999, -3155759999999999999)]
+
+
 def gen_C11(tier, seed):
     g = EGen(seed)
     r = g.r
@@ -923,6 +928,62 @@ def gen_C11(tier, seed):
             v = r.randint(MINV, MAXV - 1)
         d = parts_of(v)
         out.append(f"{r.choice(['decompose', 'disp_dur', 'disp_dur', 'compose_decompose'])} {p2(d)}")
+    # parse-back of the printed form (durations up to 10 000 years) and the documented grammar against the value it denotes
+    from fractions import Fraction
+    rp = random.Random(seed * 29 + 11)
+    SPELL = {"d": NPD, "days": NPD, "day": NPD, "h": 3600 * SEC, "hours": 3600 * SEC, "hour": 3600 * SEC, "min": 60 * SEC, "mins": 60 * SEC,
+             "minute": 60 * SEC, "s": SEC, "second": SEC, "seconds": SEC, "ms": 10**6, "millisecond": 10**6, "milliseconds": 10**6,
+             "us": 1000, "microsecond": 1000, "microseconds": 1000, "ns": 1, "nanosecond": 1, "nanoseconds": 1}
+    ORDER = ["d", "h", "min", "s", "ms", "us", "ns"]
+
+    def pdv(text, value, tol):
+        fr = Fraction(value)
+        return f"p_dur_v {enc(text)} {fr.numerator} {fr.denominator} {tol}"
+    for d in durs10k_c11():
+        out.append(f"rt_dur {p2(d)}")
+    for sp, f in SPELL.items():
+        for k in (0, 1, 2, 59, 999, 1000, 10**6, 3652425):
+            if k * f < 2**53:
+                out.append(pdv(f"{k} {sp}", k * f, 0))
+                out.append(pdv(f"-{k} {sp}", -k * f, 0))
+        for x in ("1.5", "0.25", "12.125", "10.598", "0.000000001", "3.999999999"):
+            v = Fraction(x) * f
+            out.append(pdv(f"{x} {sp}", v, 1 + int(abs(v)) // 2**50))
+    out.append(pdv("5 h 256 ms 1 ns", 5 * 3600 * SEC + 256 * 10**6 + 1, 0))
+    out.append(pdv("-5 h 256 ms 1 ns", -(5 * 3600 * SEC + 256 * 10**6 + 1), 0))
+    out.append(pdv("1 d 2 h 3 min 4 s 5 ms 6 us 7 ns", NPD + 2 * 3600 * SEC + 3 * 60 * SEC + 4 * SEC + 5 * 10**6 + 6000 + 7, 0))
+    for h in (0, 1, 5, 12, 23, 36):
+        for m in (0, 15, 30, 59):
+            for sg, sv in (("+", 1), ("-", -1)):
+                out.append(pdv(f"{sg}{h:02}:{m:02}", sv * (h * 3600 + m * 60) * SEC, 0))
+                out.append(pdv(f"{sg}{h:02}{m:02}", sv * (h * 3600 + m * 60) * SEC, 0))
+                out.append(pdv(f"{sg}{h:02}:{m:02}:07", sv * (h * 3600 + m * 60 + 7) * SEC, 0))
+    for _ in range(budget(tier, 6000, 400000)):
+        k = rp.random()
+        if k < 0.35:
+            v = rp.choice([rp.randint(-3 * 10**20, 3 * 10**20), rp.choice([-1, 1]) * int(10 ** rp.uniform(0, 20)), rp.randint(-10**12, 10**12)])
+            out.append(f"rt_dur {p2(parts_of(v))}")
+        elif k < 0.7:
+            sp = rp.choice(list(SPELL)); f = SPELL[sp]
+            kk = rp.choice([rp.randint(0, 1000), rp.randint(0, 10**6), rp.randint(0, min(2**53 // f, 10**12))])
+            sg = rp.choice(["", "", "-"])
+            if kk * f < 2**53:
+                out.append(pdv(f"{sg}{kk} {sp}", (-1 if sg else 1) * kk * f, 0))
+        elif k < 0.85:
+            sp = rp.choice(list(SPELL)); f = SPELL[sp]
+            digs = rp.randint(1, 9)
+            x = f"{rp.randint(0, 10**4)}.{rp.randint(0, 10**digs - 1):0{digs}d}"
+            v = Fraction(x) * f
+            out.append(pdv(f"{x} {sp}", v, 1 + int(abs(v)) // 2**50))
+        else:
+            comps = []; tot = 0
+            for u in ORDER:
+                if rp.random() < 0.5:
+                    kk = rp.randint(0, 999)
+                    comps.append(f"{kk} {u}"); tot += kk * SPELL[u]
+            if comps:
+                sg = rp.choice(["", "-"])
+                out.append(pdv(sg + " ".join(comps), (-1 if sg else 1) * tot, 0))
     return out
 
 
